@@ -66,7 +66,10 @@ func (w *zzWorld) block(i int) blocks.Block {
 type zzBS struct {
 	w       *zzWorld
 	foreign []blocks.Block
+	failPut bool // every Put / PutMany fails without storing anything (recorded as "putfail")
 }
+
+var zzErrPut = errors.New("blockstore: put failed")
 
 func (b *zzBS) DeleteBlock(ctx context.Context, c cid.Cid) error {
 	if i := b.w.rec("bs", "delete", c); i >= 0 {
@@ -107,6 +110,10 @@ func (b *zzBS) GetSize(ctx context.Context, c cid.Cid) (int, error) {
 }
 
 func (b *zzBS) Put(ctx context.Context, blk blocks.Block) error {
+	if b.failPut {
+		b.w.rec("bs", "putfail", blk.Cid())
+		return zzErrPut
+	}
 	if i := b.w.rec("bs", "put", blk.Cid()); i >= 0 {
 		b.w.pool[i].local = true
 	} else {
@@ -116,6 +123,12 @@ func (b *zzBS) Put(ctx context.Context, blk blocks.Block) error {
 }
 
 func (b *zzBS) PutMany(ctx context.Context, bl []blocks.Block) error {
+	if b.failPut {
+		for _, blk := range bl {
+			b.w.rec("bs", "putfail", blk.Cid())
+		}
+		return zzErrPut
+	}
 	for _, blk := range bl {
 		if i := b.w.rec("bs", "put", blk.Cid()); i >= 0 {
 			b.w.pool[i].local = true
